@@ -1,11 +1,17 @@
 /-
-  Bridge C14 — the regenerated size test of the cohesiveness / justified-representation checkers
-  (Gen/C14.lean, produced from `is_large_enough` in the current source of pabutools/analysis/cohesiveness.py on
-  every run) is the test of the model (`JR.largeEnough` in PabuModel/JR.lean).
+  Bridge C14 — the regenerated leaf formulas of the cohesiveness / justified-representation checkers
+  (Gen/C14.lean, produced on every run from the current source of pabutools/analysis/cohesiveness.py and
+  pabutools/analysis/justifiedrepresentation.py) are the formulas of the model (PabuModel/JR.lean): the size
+  test `is_large_enough`, the remaining tests of `is_cohesive_approval` / `is_cohesive_cardinal` and the guards
+  of `cohesive_groups` (the model's `adm`), the surplus of the "up to" relaxations (`surplus`, `missing`), and
+  the decisive comparison of every checker family — core, strong EJR, EJR, PJR, for approval and cardinal
+  ballots (the model's `voterOk` / `good`).
 -/
 import Gen.C14
 import PabuModel.JR
+import PabuProofs.Lemmas.Election
 import Mathlib.Tactic.NormNum
+import Mathlib.Tactic.Linarith
 import Mathlib.Algebra.Order.Field.Rat
 namespace Pabu.Bridge.C14
 open Pabu
@@ -19,7 +25,188 @@ theorem isLargeEnough (E : JR.Setting) (size : Nat) (T : List Pid) :
     JR.largeEnough E size T =
       Gen.C14.isLargeEnough ((size : Nat) : Rat) ((E.n : Nat) : Rat) (costOf E.cost T) E.budget := rfl
 
+/-! ### list lengths as the code tests them -/
+
+theorem length_pos_eq {α : Type} (l : List α) : decide (((l.length : Nat) : Rat) > 0) = !l.isEmpty := by
+  cases l with
+  | nil => simp
+  | cons a r =>
+    have : (0 : Rat) < (r.length : Rat) + 1 := by
+      have : (0 : Rat) ≤ (r.length : Rat) := Nat.cast_nonneg _
+      linarith
+    simp [this]
+
+theorem length_zero_eq {α : Type} (l : List α) : decide (((l.length : Nat) : Rat) = 0) = l.isEmpty := by
+  cases l with
+  | nil => simp
+  | cons a r =>
+    have : (r.length : Rat) + 1 ≠ 0 := by
+      have : (0 : Rat) ≤ (r.length : Rat) := Nat.cast_nonneg _
+      linarith
+    simp [this]
+
+theorem le_eq_not_lt (a b : Rat) : decide (a ≤ b) = !decide (b < a) := by
+  by_cases h : a ≤ b
+  · simp [h, not_lt.mpr h]
+  · simp [h, not_le.mp h]
+
+/-! ### the surplus of the "up to one / any project" relaxations -/
+
+/-- `… for p in project_set if p not in budget_allocation` -/
+theorem missing (W T : List Pid) : JR.missing W T = T.filter (fun p => Gen.C14.missing (W.contains p)) := rfl
+
+/-- `surplus = 0` when no `up_to_func` is given -/
+theorem noSurplus (l : List Rat) : JR.surplus .none l = Gen.C14.noSurplus := rfl
+
+/-- the `*_any_*` checkers pass `lambda x: min(x, default=0)` -/
+theorem upToAny (l : List Rat) :
+    JR.surplus .any l = Gen.C14.upToAnyEJRApproval ((minRat l).getD 0) ∧
+    JR.surplus .any l = Gen.C14.upToAnyEJRCardinal ((minRat l).getD 0) ∧
+    JR.surplus .any l = Gen.C14.upToAnyPJRApproval ((minRat l).getD 0) ∧
+    JR.surplus .any l = Gen.C14.upToAnyPJRCardinal ((minRat l).getD 0) := ⟨rfl, rfl, rfl, rfl⟩
+
+/-- the `*_one_*` checkers pass `lambda x: max(x, default=0)` -/
+theorem upToOne (l : List Rat) :
+    JR.surplus .one l = Gen.C14.upToOneEJRApproval ((maxRat l).getD 0) ∧
+    JR.surplus .one l = Gen.C14.upToOneEJRCardinal ((maxRat l).getD 0) ∧
+    JR.surplus .one l = Gen.C14.upToOnePJRApproval ((maxRat l).getD 0) ∧
+    JR.surplus .one l = Gen.C14.upToOnePJRCardinal ((maxRat l).getD 0) := ⟨rfl, rfl, rfl, rfl⟩
+
+/-! ### the core -/
+
+/-- `is_in_core` looks at a pair when `len(group) > 0` and `is_large_enough(…)` -/
+theorem coreAdm (E : JR.Setting) (card : Bool) (size : Nat) (S : List JR.Voter) (T : List Pid) :
+    JR.adm E card .core size S T =
+      (Gen.C14.coreGroupNonEmpty ((S.length : Nat) : Rat) && Gen.C14.coreSizeTest (JR.largeEnough E size T)) := by
+  unfold JR.adm Gen.C14.coreGroupNonEmpty Gen.C14.coreSizeTest
+  rw [length_pos_eq, Bool.and_comm]
+
+/-- `sat.sat(budget_allocation) + surplus >= sat.sat(project_set)`: the group does not block as soon as one
+    member passes -/
+theorem coreVoterOk (E : JR.Setting) (card : Bool) (up : JR.UpTo) (W : List Pid) (S : List JR.Voter) (T : List Pid) :
+    JR.good E card .core up W S T =
+      S.any (fun v => Gen.C14.coreVoterOk (JR.satV v W) (JR.surplus up ((JR.missing W T).map v.u)) (JR.satV v T)) := rfl
+
+/-! ### strong EJR -/
+
+/-- approval ballots: some member with `sat.sat(budget_allocation) < sat.sat(project_set)` refutes -/
+theorem strongEJRApproval (E : JR.Setting) (up : JR.UpTo) (W : List Pid) (S : List JR.Voter) (T : List Pid) :
+    JR.good E false .strong up W S T =
+      S.all (fun v => !Gen.C14.strongEJRApprovalFails (JR.satV v W) (JR.satV v T)) := by
+  show S.all (JR.voterOk false .strong .none W S T) = _
+  congr 1
+  funext v
+  show decide (JR.satV v T ≤ JR.satV v W + 0) = _
+  rw [add_zero, le_eq_not_lt]
+  rfl
+
+/-- cardinal ballots: the threshold is `sum(min(b[p] for b in group) for p in project_set)` -/
+theorem strongEJRCardinal (E : JR.Setting) (up : JR.UpTo) (W : List Pid) (S : List JR.Voter) (T : List Pid) :
+    JR.good E true .strong up W S T =
+      S.all (fun v => !Gen.C14.strongEJRCardinalFails (JR.satV v W)
+        (sumOver T (fun p => Gen.C14.cardThresholdSummand (JR.minOver S p)))) := by
+  show S.all (JR.voterOk true .strong .none W S T) = _
+  congr 1
+  funext v
+  show decide (sumOver T (JR.minOver S) ≤ JR.satV v W + 0) = _
+  rw [add_zero, le_eq_not_lt]
+  rfl
+
+/-! ### EJR -/
+
+/-- approval ballots: `sat.sat(budget_allocation) + surplus >= sat.sat(project_set)` for one member -/
+theorem ejrApproval (E : JR.Setting) (up : JR.UpTo) (W : List Pid) (S : List JR.Voter) (T : List Pid) :
+    JR.good E false .ejr up W S T =
+      S.any (fun v => Gen.C14.ejrApprovalOk (JR.satV v W) (JR.surplus up ((JR.missing W T).map v.u)) (JR.satV v T)) := rfl
+
+/-- cardinal ballots: `sat.sat(budget_allocation) + surplus >= threshold` for one member -/
+theorem ejrCardinal (E : JR.Setting) (up : JR.UpTo) (W : List Pid) (S : List JR.Voter) (T : List Pid) :
+    JR.good E true .ejr up W S T =
+      S.any (fun v => Gen.C14.ejrCardinalOk (JR.satV v W) (JR.surplus up ((JR.missing W T).map v.u))
+        (sumOver T (fun p => Gen.C14.cardThresholdSummand (JR.minOver S p)))) := rfl
+
+/-! ### PJR -/
+
+/-- approval ballots: `group_sat < threshold` refutes, `group_sat = sat.sat(group_approved) + surplus`,
+    `group_approved = {p for p in budget_allocation if any(p in b for b in group)}`, `sat` the measure of the
+    ballot approving everything -/
+theorem pjrApproval (E : JR.Setting) (up : JR.UpTo) (W : List Pid) (S : List JR.Voter) (T : List Pid) :
+    JR.good E false .pjr up W S T =
+      !Gen.C14.pjrApprovalFails
+        (Gen.C14.pjrApprovalGroupSat
+          (sumOver (W.filter (fun p => Gen.C14.pjrGroupApproves (S.any (fun v => v.app p)))) E.full)
+          (JR.surplus up ((JR.missing W T).map E.full)))
+        (Gen.C14.pjrApprovalThreshold (sumOver T E.full)) := by
+  show decide (sumOver T E.full ≤ sumOver (JR.groupApproved W S) E.full + JR.surplus up ((JR.missing W T).map E.full)) = _
+  rw [le_eq_not_lt]
+  rfl
+
+/-- cardinal ballots: `group_sat + surplus < threshold` refutes,
+    `group_sat = sum(max(b[p] for b in group) for p in budget_allocation)` -/
+theorem pjrCardinal (E : JR.Setting) (up : JR.UpTo) (W : List Pid) (S : List JR.Voter) (T : List Pid) :
+    JR.good E true .pjr up W S T =
+      !Gen.C14.pjrCardinalFails
+        (sumOver W (fun p => Gen.C14.pjrCardinalGroupSummand (JR.maxOver S p)))
+        (JR.surplus up ((JR.missing W T).map (JR.maxOver S)))
+        (sumOver T (fun p => Gen.C14.cardThresholdSummand (JR.minOver S p))) := by
+  show decide (sumOver T (JR.minOver S) ≤ sumOver W (JR.maxOver S) + JR.surplus up ((JR.missing W T).map (JR.maxOver S))) = _
+  rw [le_eq_not_lt]
+  rfl
+
+/-! ### cohesive groups -/
+
+/-- the guards `len(group) > 0`, `len(project_set) > 0` of `cohesive_groups` -/
+theorem cohGuards (S : List JR.Voter) (T : List Pid) :
+    Gen.C14.cohGroupNonEmpty ((S.length : Nat) : Rat) = !S.isEmpty ∧
+    Gen.C14.cohSetNonEmpty ((T.length : Nat) : Rat) = !T.isEmpty :=
+  ⟨length_pos_eq S, length_pos_eq T⟩
+
+/-- `is_cohesive_approval`: large enough, neither collection empty, and no (ballot, project) pair with
+    `p not in ballot` -/
+theorem cohesiveApproval (E : JR.Setting) (k : JR.Kind) (hk : k ≠ .core) (size : Nat) (S : List JR.Voter) (T : List Pid) :
+    JR.adm E false k size S T =
+      (!Gen.C14.cohApprovalTooSmall (JR.largeEnough E size T) &&
+       !Gen.C14.cohApprovalEmpty ((S.length : Nat) : Rat) ((T.length : Nat) : Rat) &&
+       S.all (fun v => T.all (fun p => !Gen.C14.cohApprovalPairFails (v.app p)))) := by
+  unfold Gen.C14.cohApprovalTooSmall Gen.C14.cohApprovalEmpty Gen.C14.cohApprovalPairFails
+  rw [length_zero_eq, length_zero_eq]
+  cases k <;> first | exact absurd rfl hk | simp [JR.adm, JR.unanimous, Bool.and_assoc]
+
+/-- every member's score of `p` is at least the group's minimum -/
+theorem minOver_le (S : List JR.Voter) (p : Pid) (v : JR.Voter) (hv : v ∈ S) : JR.minOver S p ≤ v.u p := by
+  unfold JR.minOver
+  have hmem : v.u p ∈ S.map (fun v => v.u p) := List.mem_map_of_mem (f := fun v => v.u p) hv
+  cases h : minRat (S.map (fun v => v.u p)) with
+  | none => rw [Election.minRat_eq_none.1 h] at hmem; cases hmem
+  | some m => exact Election.minRat_le h _ hmem
+
+/-- `is_cohesive_cardinal` as `cohesive_groups` calls it (`alpha[p] = min(b[p] for b in group)`): large enough,
+    neither collection empty, and no pair with `ballot[p] < alpha[p]` — which, for that `alpha`, never happens;
+    this is why the model's `adm` has no score test for cardinal ballots -/
+theorem cohesiveCardinal (E : JR.Setting) (k : JR.Kind) (hk : k ≠ .core) (size : Nat) (S : List JR.Voter) (T : List Pid) :
+    JR.adm E true k size S T =
+      (!Gen.C14.cohCardinalTooSmall (JR.largeEnough E size T) &&
+       !Gen.C14.cohCardinalEmpty ((S.length : Nat) : Rat) ((T.length : Nat) : Rat) &&
+       S.all (fun v => T.all (fun p => !Gen.C14.cohCardinalPairFails (v.u p) (Gen.C14.cohAlphaMin (JR.minOver S p))))) := by
+  have hall : S.all (fun v => T.all (fun p =>
+      !Gen.C14.cohCardinalPairFails (v.u p) (Gen.C14.cohAlphaMin (JR.minOver S p)))) = true := by
+    unfold Gen.C14.cohCardinalPairFails Gen.C14.cohAlphaMin
+    rw [List.all_eq_true]
+    intro v hv
+    rw [List.all_eq_true]
+    intro p _
+    have := minOver_le S p v hv
+    simp [not_lt.mpr this]
+  rw [hall]
+  unfold Gen.C14.cohCardinalTooSmall Gen.C14.cohCardinalEmpty
+  rw [length_zero_eq, length_zero_eq]
+  cases k <;> first | exact absurd rfl hk | simp [JR.adm, Bool.and_assoc]
+
 example : Gen.C14.isLargeEnough 2 4 5 10 = true ∧ Gen.C14.isLargeEnough 1 4 5 10 = false := by
   norm_num [Gen.C14.isLargeEnough]
+
+example : Gen.C14.coreVoterOk 1 1 2 = true ∧ Gen.C14.coreVoterOk 1 0 2 = false ∧
+    Gen.C14.pjrCardinalFails 1 0 2 = true ∧ Gen.C14.cohCardinalPairFails 1 1 = false := by
+  norm_num [Gen.C14.coreVoterOk, Gen.C14.pjrCardinalFails, Gen.C14.cohCardinalPairFails]
 
 end Pabu.Bridge.C14
